@@ -1,5 +1,7 @@
 import Xo.Model.Refs
 import Xo.Lemmas.LayoutRT
+import Xo.Lemmas.Path
+import Xo.Props.C11
 import Xo.Props.C04
 /-! C08 — references alias, null and survive buffer growth as documented (property theorems only).
 Slot-level theorems for every slot address, target address and memory; the fresh-and-disjoint placement of referents created
@@ -137,6 +139,46 @@ theorem C08_copy_fresh (s : Alloc.AState) (live : List Alloc.Region) (size : Nat
     o + size ≤ s'.capacity ∧ (∀ r ∈ live, Alloc.Disjoint (o, size) r) :=
   let r := Alloc.C04_alloc s live size true o s' hinv h
   ⟨r.1, r.2.2.2.1⟩
+
+/-- a slot whose 8 bytes are the encoding of `target - slot` denotes `target`, in any memory -/
+theorem deref_of_bytes (m : Mem) (slot target : Nat) (hs : slot < 2 ^ 62) (ht : target < 2 ^ 62)
+    (h : readAt m slot 8 = refBytes slot target) : deref m slot = some target := by
+  unfold deref
+  rw [h]
+  unfold refBytes
+  rw [i64of_i64le _ (by omega) (by omega)]
+  have hne : ((target : Int) - (slot : Int)) ≠ NULLV := by unfold NULLV; omega
+  simp only [hne, ↓reduceIte]
+  congr 1; omega
+
+/-- **alias, at value level**: let a reference slot (anywhere outside the referent) denote an object `vB : tB` that the memory holds
+at `offB`. Then the referent read through the reference is `vB`; and storing a scalar element of the referent - through the
+reference, through the original handle or through any other reference to it: they all compute the same address - makes every one
+of them read the referent with exactly that element replaced, while the reference still denotes the same object -/
+theorem C08_alias_value (tB : Ty) (vB : Val) (hw : tB.WF) (hc : Conf tB vB) (hsz : vsize tB vB < 2 ^ 64)
+    (m0 : Mem) (offB : Nat) (hb : offB + vsize tB vB ≤ m0.length) (m : Mem) (hlen : m.length = m0.length)
+    (hag : Agree m (apply (shift offB (patchesD tB vB)) m0) offB (offB + vsize tB vB))
+    (slot : Nat) (hs : slot < 2 ^ 62) (ht : offB < 2 ^ 62)
+    (hdisj : slot + 8 ≤ offB ∨ offB + vsize tB vB ≤ slot)
+    (href : readAt m slot 8 = refBytes slot offB)
+    (p : List Nat) (lo w b : Nat) (hl : leafAt tB vB p = some (lo, w)) (hbv : b < 256 ^ w) :
+    deref m slot = some offB ∧ readD tB m offB = vB.norm ∧
+    ∃ v', updAt tB vB p b = some v' ∧
+      deref (setScalar m (offB + lo) w b) slot = some offB ∧
+      readD tB (setScalar m (offB + lo) w b) offB = v'.norm := by
+  refine ⟨deref_of_bytes m slot offB hs ht href, rtD tB vB hw hc hsz m0 offB hb m hag, ?_⟩
+  obtain ⟨v', h1, _, _, h4, h5⟩ := set_leaf_rt tB vB hw hc hsz m0 offB hb m hag hlen p lo w b hl hbv
+  refine ⟨v', h1, ?_, h5⟩
+  apply deref_of_bytes _ slot offB hs ht
+  rw [← href]
+  have hf := (C11_scalar_never_overruns m (offB + lo) w b (by rw [hlen]; omega)).2
+  apply List.ext_getElem?
+  intro i
+  rw [getElem?_readAt, getElem?_readAt]
+  by_cases hi : i < 8
+  · simp only [hi, ↓reduceIte]
+    exact hf (slot + i) (by omega)
+  · simp [hi]
 
 /-! non-vacuity -/
 example : deref (writeAt (List.replicate 64 0xA5) 8 (refBytes 8 40)) 8 = some 40 := by decide
